@@ -205,8 +205,27 @@ fn g_mixed(ch: &mut Chooser, acc: &mut Acc) -> B {
             0 => {
                 // a look-alike hash stored as a VALUE under a literal key
                 lookalike(&mut b, ch, acc, true);
-                b.push(W::from_u64(20 + ch.below(5) as u64));
+                let k = W::from_u64(20 + ch.below(5) as u64);
+                b.push(k);
                 b.emit(asm::SSTORE);
+                if ch.chance(1, 2) {
+                    // ... and read back on the same path (the load carries the stored value), then kept
+                    // under another literal key, dropped, or returned
+                    acc.label("lookalike:stored-value-read-back");
+                    b.push(k);
+                    b.emit(asm::SLOAD);
+                    match ch.below(3) {
+                        0 => {
+                            b.push(W::from_u64(26 + ch.below(3) as u64));
+                            b.emit(asm::SSTORE);
+                        }
+                        1 => b.emit(asm::POP),
+                        _ => {
+                            b.push(W::ZERO);
+                            b.emit(asm::MSTORE);
+                        }
+                    }
+                }
             }
             1 => {
                 // a look-alike hash stored as the value of a mapping entry
@@ -550,6 +569,7 @@ fn run_shard(ctx: &ShardCtx, acc: &mut Acc) {
                     &CfOpts {
                         back_edges: false,
                         faults: false,
+                        trunc_tail: false,
                         max_blocks: 7,
                     },
                 )
